@@ -74,309 +74,106 @@ func LogicalRightShift8[L SimpleInt](left L, right uint64) L {
 
 type logicalShiftFunc[L SimpleInt] func(left L, right uint64) L
 
-// Bitshift a strict int to the left.
-func StrictIntLogicalLeftBitshift[T StrictInt](left T, right Value, shiftFunc logicalShiftFunc[T]) (T, Value) {
+// Split an integer bitshift operand into its magnitude and sign.
+// Magnitudes that do not fit in 64 bits are saturated, they shift out every bit anyway.
+// `ok` is false when the value is not an integer.
+func bitshiftOperand(right Value) (magnitude uint64, negative bool, ok bool) {
+	signed := func(i int64) (uint64, bool, bool) {
+		if i < 0 {
+			// -(i + 1) never overflows, unlike -i
+			return uint64(-(i + 1)) + 1, true, true
+		}
+		return uint64(i), false, true
+	}
+
 	if right.IsReference() {
 		switch r := right.AsReference().(type) {
 		case Int64:
-			if r < 0 {
-				return shiftFunc(left, uint64(-r)), Undefined
-			}
-			return left << r, Undefined
+			return signed(int64(r))
 		case UInt64:
-			return left << r, Undefined
+			return uint64(r), false, true
 		case *BigInt:
 			if r.IsSmallInt() {
-				rSmall := r.ToSmallInt()
-				if rSmall < 0 {
-					return left >> -rSmall, Undefined
-				}
-				return left << rSmall, Undefined
+				return signed(int64(r.ToSmallInt()))
 			}
-
-			return 0, Undefined
+			return math.MaxUint64, r.ToGoBigInt().Sign() < 0, true
 		default:
-			return 0, Ref(NewBitshiftOperandError(right))
+			return 0, false, false
 		}
 	}
 
 	switch right.ValueFlag() {
 	case SMALL_INT_FLAG:
-		r := right.AsSmallInt()
-		if r < 0 {
-			return shiftFunc(left, uint64(-r)), Undefined
-		}
-		return left << r, Undefined
+		return signed(int64(right.AsSmallInt()))
 	case INT64_FLAG:
-		r := right.AsInlineInt64()
-		if r < 0 {
-			return shiftFunc(left, uint64(-r)), Undefined
-		}
-		return left << r, Undefined
+		return signed(int64(right.AsInlineInt64()))
 	case INT32_FLAG:
-		r := right.AsInt32()
-		if r < 0 {
-			return shiftFunc(left, uint64(-r)), Undefined
-		}
-		return left << r, Undefined
+		return signed(int64(right.AsInt32()))
 	case INT16_FLAG:
-		r := right.AsInt16()
-		if r < 0 {
-			return shiftFunc(left, uint64(-r)), Undefined
-		}
-		return left << r, Undefined
+		return signed(int64(right.AsInt16()))
 	case INT8_FLAG:
-		r := right.AsInt8()
-		if r < 0 {
-			return shiftFunc(left, uint64(-r)), Undefined
-		}
-		return left << r, Undefined
+		return signed(int64(right.AsInt8()))
+	case UINT_FLAG:
+		return uint64(right.AsUInt()), false, true
 	case UINT64_FLAG:
-		r := right.AsInlineUInt64()
-		return left << r, Undefined
+		return uint64(right.AsInlineUInt64()), false, true
 	case UINT32_FLAG:
-		r := right.AsUInt32()
-		return left << r, Undefined
+		return uint64(right.AsUInt32()), false, true
 	case UINT16_FLAG:
-		r := right.AsUInt16()
-		return left << r, Undefined
+		return uint64(right.AsUInt16()), false, true
 	case UINT8_FLAG:
-		r := right.AsUInt8()
-		return left << r, Undefined
+		return uint64(right.AsUInt8()), false, true
 	default:
+		return 0, false, false
+	}
+}
+
+// Logically bitshift a strict int to the left.
+func StrictIntLogicalLeftBitshift[T StrictInt](left T, right Value, shiftFunc logicalShiftFunc[T]) (T, Value) {
+	magnitude, negative, ok := bitshiftOperand(right)
+	if !ok {
 		return 0, Ref(NewBitshiftOperandError(right))
 	}
+	if negative {
+		return shiftFunc(left, magnitude), Undefined
+	}
+	return left << magnitude, Undefined
 }
 
 // Logically bitshift a strict int to the right.
 func StrictIntLogicalRightBitshift[T StrictInt](left T, right Value, shiftFunc logicalShiftFunc[T]) (T, Value) {
-	if right.IsReference() {
-		switch r := right.AsReference().(type) {
-		case Int64:
-			if r < 0 {
-				return left << -r, Undefined
-			}
-			return shiftFunc(left, uint64(r)), Undefined
-		case UInt64:
-			return shiftFunc(left, uint64(r)), Undefined
-		case *BigInt:
-			if r.IsSmallInt() {
-				rSmall := r.ToSmallInt()
-				if rSmall < 0 {
-					return left << -rSmall, Undefined
-				}
-				return shiftFunc(left, uint64(rSmall)), Undefined
-			}
-
-			return 0, Undefined
-		default:
-			return 0, Ref(NewBitshiftOperandError(right))
-		}
-	}
-
-	switch right.ValueFlag() {
-	case SMALL_INT_FLAG:
-		r := right.AsSmallInt()
-		if r < 0 {
-			return left << -r, Undefined
-		}
-		return shiftFunc(left, uint64(r)), Undefined
-	case INT64_FLAG:
-		r := right.AsInlineInt64()
-		if r < 0 {
-			return left << -r, Undefined
-		}
-		return shiftFunc(left, uint64(r)), Undefined
-	case INT32_FLAG:
-		r := right.AsInt32()
-		if r < 0 {
-			return left << -r, Undefined
-		}
-		return shiftFunc(left, uint64(r)), Undefined
-	case INT16_FLAG:
-		r := right.AsInt16()
-		if r < 0 {
-			return left << -r, Undefined
-		}
-		return shiftFunc(left, uint64(r)), Undefined
-	case INT8_FLAG:
-		r := right.AsInt8()
-		if r < 0 {
-			return left << -r, Undefined
-		}
-		return shiftFunc(left, uint64(r)), Undefined
-	case UINT_FLAG:
-		r := right.AsUInt()
-		return shiftFunc(left, uint64(r)), Undefined
-	case UINT64_FLAG:
-		r := right.AsInlineUInt64()
-		return shiftFunc(left, uint64(r)), Undefined
-	case UINT32_FLAG:
-		r := right.AsUInt32()
-		return shiftFunc(left, uint64(r)), Undefined
-	case UINT16_FLAG:
-		r := right.AsUInt16()
-		return shiftFunc(left, uint64(r)), Undefined
-	case UINT8_FLAG:
-		r := right.AsUInt8()
-		return shiftFunc(left, uint64(r)), Undefined
-	default:
+	magnitude, negative, ok := bitshiftOperand(right)
+	if !ok {
 		return 0, Ref(NewBitshiftOperandError(right))
 	}
+	if negative {
+		return left << magnitude, Undefined
+	}
+	return shiftFunc(left, magnitude), Undefined
 }
 
 // Bitshift a strict int to the right.
 func StrictIntRightBitshift[T StrictInt](left T, right Value) (T, Value) {
-	if right.IsReference() {
-		switch r := right.AsReference().(type) {
-		case Int64:
-			if r < 0 {
-				return left << -r, Undefined
-			}
-			return left >> r, Undefined
-		case UInt64:
-			return left >> r, Undefined
-		case *BigInt:
-			if r.IsSmallInt() {
-				rSmall := r.ToSmallInt()
-				if rSmall < 0 {
-					return left << -rSmall, Undefined
-				}
-				return left >> rSmall, Undefined
-			}
-
-			return 0, Undefined
-		default:
-			return 0, Ref(NewBitshiftOperandError(right))
-		}
-	}
-
-	switch right.ValueFlag() {
-	case SMALL_INT_FLAG:
-		r := right.AsSmallInt()
-		if r < 0 {
-			return left << -r, Undefined
-		}
-		return left >> r, Undefined
-	case INT64_FLAG:
-		r := right.AsInlineInt64()
-		if r < 0 {
-			return left << -r, Undefined
-		}
-		return left >> r, Undefined
-	case INT32_FLAG:
-		r := right.AsInt32()
-		if r < 0 {
-			return left << -r, Undefined
-		}
-		return left >> r, Undefined
-	case INT16_FLAG:
-		r := right.AsInt16()
-		if r < 0 {
-			return left << -r, Undefined
-		}
-		return left >> r, Undefined
-	case INT8_FLAG:
-		r := right.AsInt8()
-		if r < 0 {
-			return left << -r, Undefined
-		}
-		return left >> r, Undefined
-	case UINT_FLAG:
-		r := right.AsUInt()
-		return left >> r, Undefined
-	case UINT64_FLAG:
-		r := right.AsInlineUInt64()
-		return left >> r, Undefined
-	case UINT32_FLAG:
-		r := right.AsUInt32()
-		return left >> r, Undefined
-	case UINT16_FLAG:
-		r := right.AsUInt16()
-		return left >> r, Undefined
-	case UINT8_FLAG:
-		r := right.AsUInt8()
-		return left >> r, Undefined
-	default:
+	magnitude, negative, ok := bitshiftOperand(right)
+	if !ok {
 		return 0, Ref(NewBitshiftOperandError(right))
 	}
+	if negative {
+		return left << magnitude, Undefined
+	}
+	return left >> magnitude, Undefined
 }
 
 // Bitshift a strict int to the left.
 func StrictIntLeftBitshift[T StrictInt](left T, right Value) (T, Value) {
-	if right.IsReference() {
-		switch r := right.AsReference().(type) {
-		case Int64:
-			if r < 0 {
-				return left >> -r, Undefined
-			}
-			return left << r, Undefined
-		case UInt64:
-			return left << r, Undefined
-		case *BigInt:
-			if r.IsSmallInt() {
-				rSmall := r.ToSmallInt()
-				if rSmall < 0 {
-					return left >> -rSmall, Undefined
-				}
-				return left << rSmall, Undefined
-			}
-
-			return 0, Undefined
-		default:
-			return 0, Ref(NewBitshiftOperandError(right))
-		}
-	}
-
-	switch right.ValueFlag() {
-	case SMALL_INT_FLAG:
-		r := right.AsSmallInt()
-		if r < 0 {
-			return left >> -r, Undefined
-		}
-		return left << r, Undefined
-	case INT64_FLAG:
-		r := right.AsInlineInt64()
-		if r < 0 {
-			return left >> -r, Undefined
-		}
-		return left << r, Undefined
-	case INT32_FLAG:
-		r := right.AsInt32()
-		if r < 0 {
-			return left >> -r, Undefined
-		}
-		return left << r, Undefined
-	case INT16_FLAG:
-		r := right.AsInt16()
-		if r < 0 {
-			return left >> -r, Undefined
-		}
-		return left << r, Undefined
-	case INT8_FLAG:
-		r := right.AsInt8()
-		if r < 0 {
-			return left >> -r, Undefined
-		}
-		return left << r, Undefined
-	case UINT_FLAG:
-		r := right.AsUInt()
-		return left << r, Undefined
-	case UINT64_FLAG:
-		r := right.AsInlineUInt64()
-		return left << r, Undefined
-	case UINT32_FLAG:
-		r := right.AsUInt32()
-		return left << r, Undefined
-	case UINT16_FLAG:
-		r := right.AsUInt16()
-		return left << r, Undefined
-	case UINT8_FLAG:
-		r := right.AsUInt8()
-		return left << r, Undefined
-	default:
+	magnitude, negative, ok := bitshiftOperand(right)
+	if !ok {
 		return 0, Ref(NewBitshiftOperandError(right))
 	}
+	if negative {
+		return left >> magnitude, Undefined
+	}
+	return left << magnitude, Undefined
 }
 
 func StrictIntLeftBitshiftValue[T StrictInt](left T, right Value) Value {
